@@ -3,8 +3,9 @@
     witnesses, evaluation of the executable model and spec on one history.
 
     Proved for ALL stores / names (closed, no axioms):
-    - the LIKE pattern old/% selects every hierarchical child (so the defect is
-      only ever "too many rows"), for all byte strings;
+    - the child query of RENAME/DELETE (db.childNameRange: name >= old+"/" AND
+      name < old+"0", bytewise) selects exactly the names that start with old+"/",
+      for all byte strings (fix F16 replaced name LIKE old||'/%');
     - the intermediate paths of CREATE/RENAME are exactly the proper prefixes
       ending before a '/';
     - the sequential UNIQUE-checked row updates compute the simultaneous renaming;
@@ -17,18 +18,13 @@
     Refuted (one witness history per finding class): [c11_refuted_*]. *)
 From Coq Require Import String Ascii List Bool Arith ZArith.
 From Raven Require Import Base.GoStr Base.Like Model.Pattern Model.Names Spec.Names Spec.NamesEval
-  Proof.LikeFacts Proof.NamesUpdates Proof.NamesParents Proof.NamesDb Proof.NamesArgs.
+  Proof.NamesRange Proof.NamesUpdates Proof.NamesParents Proof.NamesDb Proof.NamesArgs.
 Import ListNotations.
 
-(** SQLite LIKE: the pattern [p%] matches every string that starts with the bytes of [p] *)
-Theorem c11_like_matches_own_prefix : forall p r : str, like (p ++ [like_pct]) (p ++ r) = true.
-Proof. exact like_self_prefix. Qed.
-Print Assumptions c11_like_matches_own_prefix.
-
-(** every hierarchical child of [old] is selected by [name LIKE old || '/%'] *)
-Theorem c11_children_always_selected : forall old m : str, is_child old m = true -> like (child_pattern old) m = true.
-Proof. exact child_like. Qed.
-Print Assumptions c11_children_always_selected.
+(** the SQL range test of db.childNameRange is the exact, case-sensitive prefix test *)
+Theorem c11_child_range_is_prefix : forall n m : str, child_range n m = has_prefix m (n ++ [delim]).
+Proof. exact child_range_prefix. Qed.
+Print Assumptions c11_child_range_is_prefix.
 
 (** the parent paths computed from strings.Split are the proper prefixes before a '/' *)
 Theorem c11_parent_paths_are_prefixes : forall n p : str,
@@ -69,7 +65,6 @@ Theorem c11_db_rename_refines_partial : forall (st : store) (old new : str),
   exists_box (boxes st) old = true -> exists_box (boxes st) new = false ->
   existsb is_nil (raw_parents new) = false -> existsb twin (raw_parents new) = false ->
   is_child old new = false ->
-  like_extra old (names (set_name old new (add_missing (parents new) (boxes st)))) = false ->
   existsb (fun m => is_child new m) (names (add_missing (parents new) (boxes st))) = false ->
   (let '(bs, r) := db_rename (boxes st) old new in (with_boxes st bs, r)) = spec_rename st old new.
 Proof. exact db_rename_refines. Qed.
@@ -88,10 +83,10 @@ Theorem c11_rename_keeps_messages : forall (old new : str) (b : mbox),
 Proof. exact ren_keeps_cargo. Qed.
 Print Assumptions c11_rename_keeps_messages.
 
-(** DELETE n outside the LIKE and protected-case classes equals the spec on ANY store *)
+(** DELETE n outside the protected-case class equals the spec on ANY store
+    (unconditional in the names since the fix of the LIKE child query) *)
 Theorem c11_db_delete_refines_partial : forall (st : store) (n : str),
   is_nil n = false ->
-  like_extra n (names (boxes st)) = false ->
   existsb (fun d => equal_fold n d) protected_names = mem_str n protected_names ->
   (let '(bs, r) := db_delete (boxes st) n in (with_boxes st bs, r)) = spec_delete st n.
 Proof. exact db_delete_refines. Qed.
@@ -109,22 +104,6 @@ Proof. exact unquote_is_decode. Qed.
 Print Assumptions c11_unquote_is_decode_partial.
 
 (** ---- refutations: raven leaves the property in every listed class ---- *)
-Theorem c11_refuted_like_underscore : exists h c, valid_cmd c = true /\ classify (state_after h) c = Some K_like_wildcard /\ refines_at (state_after h) c = false.
-Proof. exists [(CCreate (S_ "a_b")); (CCreate (S_ "axb/child"))], (CRename (S_ "a_b") (S_ "z")). vm_compute. repeat split; reflexivity. Qed.
-Print Assumptions c11_refuted_like_underscore.
-
-Theorem c11_refuted_like_percent_panic : exists h c, valid_cmd c = true /\ classify (state_after h) c = Some K_like_wildcard /\ refines_at (state_after h) c = false.
-Proof. exists [(CCreate (S_ """a%%%b""")); (CCreate (S_ "ab/x"))], (CRename (S_ """a%%%b""") (S_ "z")). vm_compute. repeat split; reflexivity. Qed.
-Print Assumptions c11_refuted_like_percent_panic.
-
-Theorem c11_refuted_like_case_rename : exists h c, valid_cmd c = true /\ classify (state_after h) c = Some K_like_case /\ refines_at (state_after h) c = false.
-Proof. exists [(CCreate (S_ "foo")); (CCreate (S_ "FOO/kid"))], (CRename (S_ "foo") (S_ "bar")). vm_compute. repeat split; reflexivity. Qed.
-Print Assumptions c11_refuted_like_case_rename.
-
-Theorem c11_refuted_like_case_delete : exists h c, valid_cmd c = true /\ classify (state_after h) c = Some K_like_case /\ refines_at (state_after h) c = false.
-Proof. exists [(CCreate (S_ "q")); (CCreate (S_ "Q/k"))], (CDelete (S_ "q")). vm_compute. repeat split; reflexivity. Qed.
-Print Assumptions c11_refuted_like_case_delete.
-
 Theorem c11_refuted_quoted_space : exists h c, valid_cmd c = true /\ classify (state_after h) c = Some K_quoted_space /\ refines_at (state_after h) c = false.
 Proof. exists [], (CCreate (S_ """My Folder""")). vm_compute. repeat split; reflexivity. Qed.
 Print Assumptions c11_refuted_quoted_space.
@@ -142,7 +121,7 @@ Proof. exists [], (CRename (S_ "Spam") (S_ "/y")). vm_compute. repeat split; ref
 Print Assumptions c11_refuted_rename_leading_slash.
 
 Theorem c11_refuted_rename_partial : exists h c, valid_cmd c = true /\ classify (state_after h) c = Some K_rename_partial /\ refines_at (state_after h) c = false.
-Proof. exists [(CCreate (S_ """a%/d""")); (CCreate (S_ "abcde/d/e")); (CRename (S_ """a%/d""") (S_ "z")); (CCreate (S_ "q/e"))], (CRename (S_ "q") (S_ "ze/d")). vm_compute. repeat split; reflexivity. Qed.
+Proof. exists [(CRename (S_ "INBOX") (S_ "p/q/r")); (CCreate (S_ "k/r"))], (CRename (S_ "k") (S_ "p/q")). vm_compute. repeat split; reflexivity. Qed.
 Print Assumptions c11_refuted_rename_partial.
 
 Theorem c11_refuted_inbox_rename_orphan : exists h c, valid_cmd c = true /\ classify (state_after h) c = Some K_inbox_rename_orphan /\ refines_at (state_after h) c = false.
@@ -172,6 +151,23 @@ Print Assumptions c11_refuted_lsub_persists.
 Theorem c11_refuted_lsub_adds_inbox : exists h c, valid_cmd c = true /\ classify (state_after h) c = Some K_lsub_adds_inbox /\ refines_at (state_after h) c = false.
 Proof. exists [(CSubscribe (S_ "x"))], CLsub. vm_compute. repeat split; reflexivity. Qed.
 Print Assumptions c11_refuted_lsub_adds_inbox.
+
+(** ---- regression: the behaviour BEFORE the fix of the child query (facts about SQLite's
+    LIKE, Base/Like.v, not about the current model): the old query selected rows that are no children ---- *)
+Example c11_old_like_query_selected_non_children :
+  like (S_ "a_b/%") (S_ "axb/child") = true /\ is_child (S_ "a_b") (S_ "axb/child") = false
+  /\ like (S_ "foo/%") (S_ "FOO/kid") = true /\ is_child (S_ "foo") (S_ "FOO/kid") = false
+  /\ like (S_ "a%%%b/%") (S_ "ab/x") = true /\ Nat.ltb (length (S_ "ab/x")) (length (S_ "a%%%b")) = true.
+Proof. vm_compute. repeat split; reflexivity. Qed.
+
+(** the former witnesses of classes like_wildcard / like_case are now outside every class and refine the spec *)
+Example c11_fixed_like_witnesses :
+  forallb (fun '(h, c) => match classify (state_after h) c with None => true | _ => false end && refines_at (state_after h) c)
+    [([CCreate (S_ "a_b"); CCreate (S_ "axb/child")], CRename (S_ "a_b") (S_ "z"));
+     ([CCreate (S_ """a%%%b"""); CCreate (S_ "ab/x")], CRename (S_ """a%%%b""") (S_ "z"));
+     ([CCreate (S_ "foo"); CCreate (S_ "FOO/kid")], CRename (S_ "foo") (S_ "bar"));
+     ([CCreate (S_ "q"); CCreate (S_ "Q/k")], CDelete (S_ "q"))] = true.
+Proof. vm_compute. reflexivity. Qed.
 
 (** ---- the premises are satisfiable; a clean history on which model and spec coincide ---- *)
 Example c11_rename_premises_hold :
